@@ -28,6 +28,13 @@ MODULES = {
     },
     "adsr": {"trace_spec": "Trace_Adsr", "trace_cfg": "Trace_Adsr.cfg", "graphs": {}},
     "quant": {"trace_spec": "Trace_Quantizer", "trace_cfg": "Trace_Quantizer.cfg", "graphs": {}},
+    "ribbon": {
+        "trace_spec": "Trace_Ribbon", "trace_cfg": "Trace_Ribbon.cfg",
+        "graphs": {
+            "r100": {"module": "MC_Ribbon", "cfg": "Graph_Ribbon_100.cfg", "target": "ribbon100"},
+            "r500": {"module": "MC_Ribbon", "cfg": "Graph_Ribbon_500.cfg", "target": "ribbon500"},
+        },
+    },
     "lfo": {"trace_spec": "Trace_Lfo", "trace_cfg": "Trace_Lfo.cfg", "graphs": {}},
 }
 
@@ -101,6 +108,13 @@ PROPS.update({
                     "4095 scales x all 10,000,001 microvolt inputs"},
     "C09": {"module": "quant", "mc": _Q_MC, "traces": [("quant", "hyst", QT)]},
     "C19": {"module": "quant", "mc": _Q_MC, "traces": [("quant", "hyst", QT), _Q_SWEEP]},
+})
+
+_R_MC = [("ribbon", "MC_Ribbon", "MC_Ribbon.cfg", QT), ("ribbon-real", "MC_Ribbon", "MC_Ribbon_real.cfg", QT)]
+_R_GR = [("ribbon", "r100", QT), ("ribbon", "r500", QT)]
+PROPS.update({
+    "C15": {"module": "ribbon", "mc": _R_MC, "graphs": _R_GR, "traces": [("ribbon", "press", QT)]},
+    "C16": {"module": "ribbon", "mc": _R_MC, "graphs": _R_GR, "traces": [("ribbon", "press", QT), ("ribbon", "pair", QT)]},
 })
 
 HOOK_COMMITS = ["36838b7"]
